@@ -568,3 +568,87 @@ func encodeNfl(e *nfpb.MeshEntry) []byte {
 }
 
 var _ = sync.Mutex{}
+
+// ---- every size around the gossip / direct-send boundary -------------------------------------------
+
+// TestBoundarySizes: two joined peers, push/pull effectively off; silences whose comment grows by one
+// byte per update so that the encoded update takes every size in a ~140-byte window around the
+// 700-byte threshold between "queued for gossip" and "sent to every peer directly". An update of a
+// size that fits neither path (too big for a gossip datagram, not big enough for the direct path)
+// would never arrive.
+func TestBoundarySizes(t *testing.T) {
+	run := vf.Cur()
+	sub := run.Sub("boundary-sizes", "two real peers on loopback (push/pull 1 h): 150 silences whose comment grows by one byte each, so that the encoded update takes every size in a window of ~150 bytes around the 700-byte threshold; every one must be visible on the other peer within 10 s (a miss is re-run twice and counts only if the same sizes miss every time); non-trivial = every case; distinct by (seed)", 1)
+	n := run.N(1, 12)
+	for i := 0; i < n; i++ {
+		var lastMissing []int
+		reproduced := 0
+		for try := 0; try < 3; try++ {
+			a, err := startNode(fmt.Sprintf("ba%d-%d", i, try), nil, time.Hour)
+			if err != nil {
+				sub.Inconclusive(err.Error())
+				return
+			}
+			b, err := startNode(fmt.Sprintf("bb%d-%d", i, try), []string{a.addr()}, time.Hour)
+			if err != nil {
+				a.stop()
+				sub.Inconclusive(err.Error())
+				return
+			}
+			if !waitMembers([]*node{a, b}, 2) {
+				a.stop()
+				b.stop()
+				sub.Inconclusive("cluster did not form within the watchdog")
+				return
+			}
+			type up struct {
+				id, comment string
+				size        int
+			}
+			var ups []up
+			now := time.Now()
+			for k := 0; k < 150; k++ {
+				comment := fmt.Sprintf("b%03d-", k) + strings.Repeat("x", 480+k)
+				s := silh.NewSilence("", [][]model.Matcher{{{Name: "alertname", Op: "=", Value: "A"}}}, now, now.Add(30*time.Minute), comment)
+				if err := a.sil.Set(context.Background(), s); err != nil {
+					t.Fatal(err)
+				}
+				got, _ := a.sil.QueryOne(context.Background(), silence.QIDs(s.Id))
+				ups = append(ups, up{id: s.Id, comment: comment, size: len(silh.Encode(silh.Mesh(got, time.Hour)))})
+				time.Sleep(5 * time.Millisecond)
+			}
+			check := func() []int {
+				var miss []int
+				for _, u := range ups {
+					if !b.hasSilence(u.id, u.comment) {
+						miss = append(miss, u.size)
+					}
+				}
+				return miss
+			}
+			waitFor(10*time.Second, func() bool { return len(check()) == 0 })
+			missing := check()
+			sub.Count("updates", int64(len(ups)))
+			sub.Count("smallest_encoded_size", 0)
+			if try == 0 {
+				sub.Seen("encoded_size_window", fmt.Sprintf("%d..%d", ups[0].size, ups[len(ups)-1].size))
+			}
+			a.stop()
+			b.stop()
+			if len(missing) == 0 {
+				reproduced = -1
+				break
+			}
+			if try == 0 || fmt.Sprint(missing) == fmt.Sprint(lastMissing) {
+				reproduced++
+			}
+			lastMissing = missing
+		}
+		if reproduced >= 3 {
+			sub.Violation("update-of-a-boundary-size-not-delivered-to-a-connected-peer", map[string]any{"encoded_record_sizes_never_delivered": lastMissing, "runs": 3})
+		} else if reproduced >= 0 {
+			sub.Inconclusive(fmt.Sprintf("boundary sizes missed in some but not all of 3 runs: %v", lastMissing))
+		}
+		sub.Case(vf.Digest(sub.Seed(i)), true)
+	}
+}
